@@ -567,12 +567,19 @@ def install_observers(run, patch):
                 allz = np.concatenate([b_ for a_, b_ in hold])
                 allx = np.vstack([a_ for a_, b_ in hold])
                 zz = float(np.ravel(z)[0]) if np.size(z) else np.nan
-                zmin = np.nanmin(allz)
-                if not (zz == zmin):
-                    run.v("C18", "proposed value is not the minimum acquisition value", "es-not-argmin", (zz, float(zmin)))
-                j = np.where((allx == np.ravel(us)).all(1))[0]
-                if len(j) == 0 or not any(allz[i] == zz for i in j):
-                    run.v("C18", "proposed point is not a generated candidate with that value", "es-point-not-candidate", "")
+                if np.all(np.isnan(allz)):
+                    # every acquisition value is NaN (degenerate GP): "lowest value" is undefined -> don't-care,
+                    # but the proposal must still be one of the generated candidates
+                    run.stats["es_calls_all_nan"] += 1
+                    if np.size(us) and len(np.where((allx == np.ravel(us)).all(1))[0]) == 0:
+                        run.v("C18", "proposed point is not a generated candidate", "es-point-not-candidate-nan", "")
+                else:
+                    zmin = np.nanmin(allz)
+                    if not (zz == zmin):
+                        run.v("C18", "proposed value is not the minimum acquisition value", "es-not-argmin", (zz, float(zmin)))
+                    j = np.where((allx == np.ravel(us)).all(1))[0] if np.size(us) else []
+                    if len(j) == 0 or not any(allz[i] == zz for i in j):
+                        run.v("C18", "proposed point is not a generated candidate with that value", "es-point-not-candidate", "")
                 if np.any(allx < optim_state["lb_search"]) or np.any(allx > optim_state["ub_search"]):
                     run.v("C18", "ES candidate outside the mesh-rounded box", "es-candidate-outside", "")
                 if run.consf is not None:
